@@ -142,7 +142,7 @@ const (
 
 var zzMirrorLogin bool // the mirror has its own login
 
-const zzNextForC11 = true
+const zzNextForC11 = false
 
 func zzMkClient(net *zzFaultNet, retry int, mirrorTLS config.TLSConf, withMirror bool) *Client {
 	c := NewClient(WithRetryLimit(retry), WithDelay(2*time.Millisecond, 8*time.Millisecond))
@@ -171,7 +171,7 @@ func zzMkClient(net *zzFaultNet, retry int, mirrorTLS config.TLSConf, withMirror
 // faults than the limit are absorbed, a state-changing request never reaches
 // the mirror, the upstream's credentials never reach the mirror, and a host
 // configured for TLS is never addressed over http.
-func ZZC11_next() {
+func ZZC17_next() {
 	// the file serves two properties: the copy under harness/C11 draws the inputs that matter for
 	// credential confinement (caller headers, a mirror login), this one those for termination and back-off
 	const forC11 = zzNextForC11
